@@ -7,7 +7,6 @@ package refdemon
 
 import (
 	"crypto/aes"
-	"crypto/cipher"
 	"encoding/binary"
 	"errors"
 	"fmt"
@@ -72,7 +71,22 @@ func CTR(k Keys, data []byte) []byte {
 	if err != nil {
 		panic(err)
 	}
-	cipher.NewCTR(blk, k.IV).XORKeyStream(out, data)
+	// counter mode written out the way the Demon does it (AesCrypt.c AesXCryptBuffer): the 16-byte IV is one big-endian
+	// counter, incremented per block with the carry running through all 16 bytes
+	var ctr, ks [16]byte
+	copy(ctr[:], k.IV)
+	for off := 0; off < len(data); off += 16 {
+		blk.Encrypt(ks[:], ctr[:])
+		for j := 0; j < 16 && off+j < len(data); j++ {
+			out[off+j] = data[off+j] ^ ks[j]
+		}
+		for j := 15; j >= 0; j-- {
+			ctr[j]++
+			if ctr[j] != 0 {
+				break
+			}
+		}
+	}
 	return out
 }
 
